@@ -146,6 +146,10 @@ func sceneSetWithdraw() {
 		old2 = vf.Addr("o2addr", 20)
 		k.SetWithdrawAddress(ctx, o2, old2)
 	}
+	// the owner may have set an address before; the new one may be any address, the owner's own included
+	if vf.Bool("o1HasAddr") {
+		k.SetWithdrawAddress(ctx, o1, vf.Addr("o1addr", 20))
+	}
 	na := vf.Addr("newAddr", 20)
 	msg := types.NewMsgSetWithdrawAddress(o1, na)
 	vf.Assume(msg.ValidateBasic() == nil)
